@@ -1,5 +1,5 @@
 #![allow(dead_code)]
 use parity_scale_codec::{Compact, Decode, Encode};
-#[derive(Encode, Decode)]
-pub struct T { #[codec(skip)] #[codec(compact)] pub f0: u32 }
+#[derive(parity_scale_codec::CompactAs)]
+pub struct T { a: u32, #[codec(skip)] b: u8 }
 fn main() {}
